@@ -13,18 +13,34 @@ import (
 // sequence number atomically (the real critical section is C05's subject),
 // may report a targeter failure (then it calls Stop, like the real code) and
 // returns one result.
-func verifAttackSetup(N int, maxW uint64) (*Attacker, Pacer, Targeter) {
+func verifAttackSetup(N int, maxW uint64) (*Attacker, *verifPacer, Targeter) {
 	a := &Attacker{stopch: make(chan struct{}), maxBody: -1}
 	a.workers = verif_nondet_u64("workers")
 	a.maxWorkers = verif_nondet_u64("max_workers")
 	verif_assume(a.workers <= maxW && a.maxWorkers >= 1 && a.maxWorkers <= maxW)
 	verif_chan_name(a.stopch, "stop")
 
+	pacer := &verifPacer{limit: N}
 	verif_stub("time.Now", func() time.Time { return time.Unix(0, 1000) })
-	verif_stub("time.Since", func(t time.Time) time.Duration { return time.Duration(verif_nondet_i64("elapsed")) })
-	verif_stub("time.Sleep", func(d time.Duration) {})
+	// the clock: arbitrary non-decreasing readings
+	verif_stub("time.Since", func(t time.Time) time.Duration {
+		e := time.Duration(verif_nondet_i64("elapsed"))
+		verif_assume(e >= pacer.clock && e < 1<<14)
+		pacer.clock = e
+		return e
+	})
+	// C04: the loop sleeps exactly the wait the pacer returned for this hit,
+	// once, before the hit is released
+	verif_stub("time.Sleep", func(d time.Duration) {
+		verif_assert(pacer.asked && !pacer.stopped, "C04.sleep-follows-a-pace-that-did-not-stop")
+		verif_assert(d == pacer.wait, "C04.sleeps-exactly-the-returned-wait")
+		pacer.asked = false
+		verif_ghost_add("released", 1)
+	})
 	verif_stub("(*github.com/tsenart/vegeta/v12/lib.Attacker).hit", func(a *Attacker, tr Targeter, atk *attack) *Result {
 		seq := verif_ghost_add("started", 1) - 1
+		// C04: at no moment have more hits started than the pacer has released
+		verif_assert(seq+1 <= verif_ghost_add("released", 0), "C04.no-hit-starts-before-its-wait-was-slept")
 		busy := verif_ghost_add("busy", 1)
 		verif_assert(busy <= int64(a.maxWorkers), "C03.in-flight-never-exceeds-max-workers")
 		res := &Result{Seq: uint64(seq)}
@@ -34,21 +50,42 @@ func verifAttackSetup(N int, maxW uint64) (*Attacker, Pacer, Targeter) {
 		}
 		return res
 	})
-	pacer := &verifPacer{limit: N}
 	tr := Targeter(func(t *Target) error { return errors.New("unused: hit is modelled") })
 	return a, pacer, tr
 }
 
 // verifPacer releases at most limit hits with arbitrary waits and may stop at
 // any call.
-type verifPacer struct{ limit, paces int }
+type verifPacer struct {
+	limit, paces int
+	clock        time.Duration // latest clock reading handed to the loop
+	wait         time.Duration // wait returned by the latest Pace call
+	asked        bool          // a Pace call is waiting for its Sleep
+	stopped      bool
+	du           time.Duration
+}
 
 func (p *verifPacer) Pace(elapsed time.Duration, hits uint64) (time.Duration, bool) {
+	// C04: consulted once per hit with the true number of hits released so far
+	// and the elapsed time just read from the clock; never after a stop, never
+	// once more than the duration has elapsed
+	verif_assert(!p.stopped && !p.asked, "C04.pacer-consulted-once-per-hit-and-not-after-stop")
+	verif_assert(int64(hits) == verif_ghost_add("started", 0), "C04.pacer-sees-the-true-hit-count")
+	verif_assert(elapsed == p.clock, "C04.pacer-sees-the-elapsed-time-just-read")
+	verif_assert(!(p.du > 0 && elapsed > p.du), "C04.pacer-not-consulted-after-the-duration")
 	if p.paces >= p.limit {
+		p.stopped = true
 		return 0, true
 	}
 	p.paces++
-	return time.Duration(verif_nondet_i64("wait")), verif_nondet_bool("pacer_stops")
+	p.wait = time.Duration(verif_nondet_i64("wait"))
+	verif_assume(p.wait > -1<<14 && p.wait < 1<<14)
+	if verif_nondet_bool("pacer_stops") {
+		p.stopped = true
+		return p.wait, true
+	}
+	p.asked = true
+	return p.wait, false
 }
 
 func (p *verifPacer) Rate(time.Duration) float64 { return 0 }
@@ -79,24 +116,29 @@ func verif_harness_C03_attack() {
 	verifAttackBMC()
 }
 
+// C04 — the same model, registered for the pacing obligations (assertions in
+// the pacer, sleep and hit models).
+//
+//verif:harness engine=gobmc param.N=1..1 unwind=16 replay=none bmctimeout=1500 queries=cut,bad thorough.bmctimeout=6000
+func verif_harness_C04_attack() {
+	verifAttackBMC()
+}
+
 func verifAttackBMC() {
 	N := verif_param("N")
 	W := uint64(2)
 	a, pacer, tr := verifAttackSetup(N, W)
 	du := time.Duration(verif_nondet_i64("duration"))
+	verif_assume(du > -1<<14 && du < 1<<14)
+	pacer.du = du
 
 	results := a.Attack(tr, pacer, du, "atk")
 	verif_chan_name(results, "results")
 	verif_chan_codec(results, func(r *Result) uint64 { return r.Seq }, func(seq uint64) *Result { return &Result{Seq: seq} })
 
-	for e := 0; e < 2; e++ {
-		go func() {
-			if a.Stop() {
-				n := verif_ghost_add("stops_reporting_true", 1)
-				verif_assert(n <= 1, "C02.only-one-Stop-reports-initiating-the-stop")
-			}
-		}()
-	}
+	// one caller stops the attack at an arbitrary moment (two racing callers
+	// are the subject of verif_harness_C02_stop_once)
+	go func() { a.Stop() }()
 
 	seen := make([]bool, N)
 	got := int64(0)
@@ -125,5 +167,32 @@ func verifAttackBMC() {
 		if int64(s) < started {
 			verif_assert(seen[s], "C02.sequence-numbers-without-gap")
 		}
+	}
+}
+
+// C02 — among all Stop calls, concurrent or not, exactly one reports that it
+// initiated the stop: three concurrent callers plus one call after they are
+// done, every interleaving.
+//
+//verif:harness engine=gobmc unwind=16 replay=none bmctimeout=600
+func verif_harness_C02_stop_once() {
+	a := &Attacker{stopch: make(chan struct{})}
+	verif_chan_name(a.stopch, "stop")
+	for e := 0; e < 3; e++ {
+		go func() {
+			if a.Stop() {
+				n := verif_ghost_add("stops_reporting_true", 1)
+				verif_assert(n <= 1, "C02.only-one-Stop-reports-initiating-the-stop")
+			}
+			verif_ghost_add("stops_done", 1)
+		}()
+	}
+	// a late caller
+	if a.Stop() {
+		n := verif_ghost_add("stops_reporting_true", 1)
+		verif_assert(n <= 1, "C02.only-one-Stop-reports-initiating-the-stop")
+	}
+	if verif_ghost_add("stops_done", 0) == 3 {
+		verif_assert(verif_ghost_add("stops_reporting_true", 0) == 1, "C02.some-Stop-reports-initiating-the-stop")
 	}
 }
